@@ -711,78 +711,90 @@ def build_progs(ctx):
     return os.path.join(root, "ps"), os.path.join(root, "pm")
 
 
-def e2e(ctx, objdir):
+def e2e_round(ctx, objdir, progs, rnd, spec):
+    """spec = {"relay_seed": n, "runs": [[kind, extra-args, prog-args], ...]}: local recordings, then all
+    clients at once through the relay; returns [(local digest dir, received digest dir or None, meta)]"""
     uft = os.path.join(objdir, "uftrace")
+    root = os.path.join(ctx.scratch, "e2e%d" % rnd)
+    os.makedirs(root)
+    runs = [(extra, [progs[kind]] + [str(a) for a in args], kind) for kind, extra, args in spec["runs"]]
+    k = len(runs)
+    srv, port = start_recv(uft, os.path.join(root, "srv"))
+    relay = Relay(spec["relay_seed"], port)
+    procs, out = [], []
+    try:
+        for i, (extra, prog, kind) in enumerate(runs):
+            cwd = os.path.join(root, "cwd%d" % i)
+            os.makedirs(cwd)
+            rc, o, e = sh(record_cmd(uft, objdir, extra, "local.data", prog), cwd=cwd, timeout=60)
+            if rc != 0:
+                ctx.broken("e2e: local uftrace record failed rc=%d: %s" % (rc, (o + e)[-300:]))
+        for i, (extra, prog, kind) in enumerate(runs):
+            cwd = os.path.join(root, "cwd%d" % i)
+            procs.append(subprocess.Popen(
+                record_cmd(uft, objdir, extra + ["--host", "127.0.0.1", "--port", str(relay.port)],
+                           "net%d.data" % i, prog), cwd=cwd, stdout=subprocess.PIPE, stderr=subprocess.STDOUT))
+            time.sleep(spec.get("stagger", 0.0))
+        rcs = []
+        for p in procs:
+            try:
+                o, _ = p.communicate(timeout=60)
+            except subprocess.TimeoutExpired:
+                p.kill()
+                o, _ = p.communicate()
+            rcs.append((p.returncode, o.decode(errors="replace")[-300:]))
+        time.sleep(0.3)
+    finally:
+        relay.close()
+        srvout = stop_proc(srv)
+    for i, (extra, prog, kind) in enumerate(runs):
+        loc = norm_dir(uft, objdir, os.path.join(root, "cwd%d" % i, "local.data"), sort_replay=(kind == "mt"))
+        net = norm_dir(uft, objdir, os.path.join(root, "srv", "net%d.data" % i), sort_replay=(kind == "mt"))
+        meta = {"round": rnd, "clients": k, "client": i, "kind": kind, "prog": prog[1:], "record_rc": rcs[i][0],
+                "record_out": rcs[i][1], "recv_output": srvout[-300:], "spec": spec,
+                "local_files": sorted(x.decode() for x in (loc or {})),
+                "net_files": sorted(x.decode() for x in (net or {})) if net is not None else None,
+                "relay_chunk_sizes": dict(sorted(relay.chunks.items()))}
+        out.append((digest_dir(loc) or {}, digest_dir(net), meta))
+        tags = ["e2e:clients=%d" % k, "e2e:" + kind] + ["e2e:chunk=%d" % c for c in relay.chunks if c in (1, 7, 8, 9, 65536)]
+        ctx.case(key=("e2e", json.dumps(spec, sort_keys=True), i), tags=tags,
+                 sample=meta if rnd == 0 and i == 0 else None,
+                 size=sum(v[0] for v in (digest_dir(net) or {}).values()))
+        if rcs[i][0] != 0 and ctx.extra.setdefault("e2e_failures", 0) < 3:
+            ctx.extra["e2e_failures"] += 1
+            ctx.violation("C16 e2e: `uftrace record --host` failed (rc=%s) through the re-segmenting relay" % rcs[i][0],
+                          {"mode": "e2e", "case": meta}, True)
+    shutil.rmtree(root, ignore_errors=True)
+    return out
+
+
+def e2e_verdict(ctx, results):
+    pairs = [(a, b) for a, b, _ in results]
+    bad = evaluate_dig(ctx, pairs, "e2e")
+    for i in (bad or [])[:3]:
+        a, b, meta = results[i]
+        diff = sorted(n.decode() for n in set(a) | set(b or {}) if (b or {}).get(n) != a.get(n))
+        ctx.violation("C16 violated end-to-end: directory stored by `uftrace recv` differs from the local recording "
+                      "of the same program (files: %s)" % ", ".join(diff),
+                      {"mode": "e2e", "case": meta, "differing": diff}, True)
+
+
+def e2e(ctx, objdir):
     ps, pm = build_progs(ctx)
-    rounds = ctx.n(3, 8)
-    pairs, meta = [], []
-    for rnd in range(rounds):
-        root = os.path.join(ctx.scratch, "e2e%d" % rnd)
-        os.makedirs(root)
+    progs = {"single": ps, "mt": pm}
+    results = []
+    for rnd in range(ctx.n(3, 16)):
         k = [1, 3, 2, 4, 4, 2, 3, 1][rnd % 8]
         runs = []
         for i in range(k):
             if ctx.rng.random() < 0.35:
                 # many tasks, many buffers; ONE writer thread (the multi-writer case is the known defect)
-                runs.append((["--num-thread=1"], [pm, str(ctx.rng.choice([2, 4])), str(ctx.rng.choice([3000, 9000]))], "mt"))
+                runs.append(["mt", ["--num-thread=1"], [ctx.rng.choice([2, 4]), ctx.rng.choice([3000, 9000])]])
             else:
-                runs.append(([], [ps, str(ctx.rng.choice([0, 1, 3, 50, 3000]))], "single"))
-        srv, port = start_recv(uft, os.path.join(root, "srv"))
-        relay = Relay(ctx.rng.randrange(1 << 30), port)
-        procs = []
-        try:
-            for i, (extra, prog, kind) in enumerate(runs):
-                cwd = os.path.join(root, "cwd%d" % i)
-                os.makedirs(cwd)
-                rc, o, e = sh(record_cmd(uft, objdir, extra, "local.data", prog), cwd=cwd, timeout=60)
-                if rc != 0:
-                    ctx.broken("e2e: local uftrace record failed rc=%d: %s" % (rc, (o + e)[-300:]))
-            for i, (extra, prog, kind) in enumerate(runs):
-                cwd = os.path.join(root, "cwd%d" % i)
-                procs.append(subprocess.Popen(
-                    record_cmd(uft, objdir, extra + ["--host", "127.0.0.1", "--port", str(relay.port)],
-                               "net%d.data" % i, prog), cwd=cwd, stdout=subprocess.PIPE, stderr=subprocess.STDOUT))
-                if ctx.rng.random() < 0.5:
-                    time.sleep(ctx.rng.random() * 0.05)
-            rcs = []
-            for p in procs:
-                try:
-                    out, _ = p.communicate(timeout=60)
-                except subprocess.TimeoutExpired:
-                    p.kill()
-                    out, _ = p.communicate()
-                rcs.append((p.returncode, out.decode(errors="replace")[-300:]))
-            time.sleep(0.3)
-        finally:
-            relay.close()
-            srvout = stop_proc(srv)
-        for i, (extra, prog, kind) in enumerate(runs):
-            loc = norm_dir(uft, objdir, os.path.join(root, "cwd%d" % i, "local.data"), sort_replay=(kind == "mt"))
-            net = norm_dir(uft, objdir, os.path.join(root, "srv", "net%d.data" % i), sort_replay=(kind == "mt"))
-            pairs.append((digest_dir(loc) or {}, digest_dir(net)))
-            meta.append({"round": rnd, "clients": k, "client": i, "kind": kind, "prog": prog[1:], "record_rc": rcs[i][0],
-                         "record_out": rcs[i][1], "recv_output": srvout[-300:],
-                         "local_files": sorted(x.decode() for x in (loc or {})),
-                         "net_files": sorted(x.decode() for x in (net or {})) if net is not None else None,
-                         "relay_chunk_sizes": dict(sorted(relay.chunks.items()))})
-            tags = ["e2e:clients=%d" % k, "e2e:" + kind] + ["e2e:chunk=%d" % c for c in relay.chunks if c in (1, 7, 8, 9, 65536)]
-            ctx.case(key=("e2e", rnd, i, tuple(prog[1:]), k), tags=tags,
-                     sample=meta[-1] if rnd == 0 and i == 0 else None,
-                     size=sum(v[0] for v in (digest_dir(net) or {}).values()))
-            if rcs[i][0] != 0 and ctx.extra.setdefault("e2e_failures", 0) < 3:
-                ctx.extra["e2e_failures"] += 1
-                ctx.violation("C16 e2e: `uftrace record --host` failed (rc=%s) through the re-segmenting relay" % rcs[i][0],
-                              {"mode": "e2e", "case": meta[-1]}, True)
-        shutil.rmtree(root, ignore_errors=True)
-    bad = evaluate_dig(ctx, pairs, "e2e")
-    if bad is None:
-        return
-    for i in bad[:3]:
-        a, b = pairs[i]
-        diff = sorted(n.decode() for n in set(a) | set(b or {}) if (b or {}).get(n) != a.get(n))
-        ctx.violation("C16 violated end-to-end: directory stored by `uftrace recv` differs from the local recording "
-                      "of the same program (files: %s)" % ", ".join(diff),
-                      {"mode": "e2e", "case": meta[i], "differing": diff}, True)
+                runs.append(["single", [], [ctx.rng.choice([0, 1, 3, 50, 3000])]])
+        spec = {"relay_seed": ctx.rng.randrange(1 << 30), "runs": runs, "stagger": ctx.rng.choice([0.0, 0.0, 0.02])}
+        results += e2e_round(ctx, objdir, progs, rnd, spec)
+    e2e_verdict(ctx, results)
 
 
 # ---------------------------------------------------------------- witnesses of the two defects found
@@ -968,13 +980,13 @@ def run(ctx):
     objdir, exe = setup(ctx)
     rng = ctx.rng
     # 1. small in-process cases, full model comparison
-    nsmall = ctx.n(200, 1600)
+    nsmall = ctx.n(200, 4000)
     cases = [gen_case(rng, i, reuse=(i % 9 == 4)) for i in range(nsmall)]
     per = 200
     for off in range(0, len(cases), per):
         run_small(ctx, exe, cases[off:off + per], "small%d" % (off // per))
     # 2. big payloads
-    run_big(ctx, exe, [gen_case(rng, i, big=True) for i in range(ctx.n(6, 40))])
+    run_big(ctx, exe, [gen_case(rng, i, big=True) for i in range(ctx.n(6, 80))])
     # 3. malformed streams (model and implementation die on the same streams)
     raws = []
     for _ in range(ctx.n(1, 6)):
@@ -1018,8 +1030,10 @@ def replay(ctx, obj):
             ctx.violation("model and implementation of the receiver disagree on a malformed stream (%s)" % r["tag"],
                           {"mode": "raw", "raw": obj["raw"]}, False)
     elif mode == "e2e":
-        ctx.log("end-to-end cases are re-generated from the seed: re-running the e2e line with seed %s" % obj.get("seed"))
-        e2e(ctx, objdir)
+        ps, pm = build_progs(ctx)
+        res = e2e_round(ctx, objdir, {"single": ps, "mt": pm}, 0, obj["case"]["spec"])
+        e2e_verdict(ctx, res)
+        ctx.log("replayed e2e round:", json.dumps([m for _, _, m in res])[:1500])
     elif obj.get("key") in (KEY_RACE, KEY_SAMEDIR):
         witnesses(ctx, objdir, exe)
     else:
